@@ -33,6 +33,10 @@ func (rg *rootGeneratorSimple) generate() ([]*Node, error) {
 	for rg.scanner.Scan() {
 		currentNode, err := rg.nodeGenerator.generate(rg.scanner.Text(), rg.counter.next())
 		if err != nil {
+			// a row cut short by a failing reader: report the reader's error
+			if rerr := rg.scanner.Err(); rerr != nil {
+				return nil, rerr
+			}
 			return nil, err
 		}
 		if currentNode == nil {
@@ -69,6 +73,10 @@ func (rg *rootGeneratorSimple) generateIter() func(yield func(*Node, error) bool
 		for rg.scanner.Scan() {
 			currentNode, err := rg.nodeGenerator.generate(rg.scanner.Text(), rg.counter.next())
 			if err != nil {
+				// a row cut short by a failing reader: report the reader's error
+				if rerr := rg.scanner.Err(); rerr != nil {
+					err = rerr
+				}
 				yield(nil, err)
 				return
 			}
